@@ -287,6 +287,23 @@ _PANIC_CALLS = {"unwrap", "expect", "unwrap_err", "expect_err", "unwrap_unchecke
                 "unreachable", "unimplemented", "todo", "borrow_mut", "borrow", "split_at", "split_at_mut", "copy_from_slice", "swap_remove", "remove"}
 
 
+def _is_taken_alt(b, t):
+    """Is the operand of this unwrap the value just taken out of the pending-error slot (`inp.take_alt()`, `inp.errors.alt.take()`)?"""
+    if not t["args"]:
+        return False
+    pv = Prov(b)
+    rs = pv.of_operand(t["args"][0]["op"])
+    if not rs:
+        return False
+    for x in rs:
+        if x[0] == "call" and x[1] == "take_alt":
+            continue
+        if x[0] == "call" and x[1] == "take" and len(x[3]) == 1 and all(y[0] == "arg" and "alt" in y[2:] and "errors" in y[2:] for y in x[3][0]) and x[3][0]:
+            continue
+        return False
+    return True
+
+
 def _unwrap_guarded(b, blk, t):
     """Is the Option / Result that this unwrap / expect consumes known to be Some / Ok on EVERY path that reaches the call - because
     the same value's discriminant (or is_some / is_ok / is_none / is_err) was tested on the path and the bad variant left through
@@ -451,6 +468,8 @@ def panic_sites(b):
                 continue
             if nm in ("unwrap", "expect") and _unwrap_guarded(b, i, t):
                 continue
+            if nm in ("unwrap", "expect") and _is_taken_alt(b, t):
+                continue        # the "Can't fail!" unwrap of the pending error: PFAIL decides, on every path of every body, that it is Some
             out.append(nm)
         elif nm in ("index", "index_mut") and f.get("krate") in ("core", "std", "alloc"):
             tys = [a.get("ty", "") for a in t["args"][1:]]
